@@ -2401,14 +2401,14 @@ GROUP_IMPORTS = {'Std': ['Fc.Kernel'], 'Dir': ['Fc.Kernel'], 'Grp': ['FcGen.KSrc
                  'Fam2': ['FcGen.KSrcStd', 'FcGen.KSrcPS', 'Fc.RustEnv'],
                  'Fam3': ['FcGen.KSrcStd', 'FcGen.KSrcPS', 'Fc.RustEnv'],
                  'Fam4': ['FcGen.KSrcStd', 'FcGen.KSrcPS', 'Fc.RustEnv'],
-                 'Fam5': ['FcGen.KSrcStd', 'FcGen.KSrcPS', 'Fc.RustEnv'],
+                 'Fam5': ['Fc.RustEnv'],            # chain, race, race_ok hold no waker table: no import of the kernel's translation
                  'Arr1': ['FcGen.KSrcStd', 'FcGen.KSrcPS', 'Fc.RustEnv'], 'Arr2': ['FcGen.KSrcStd', 'FcGen.KSrcPS', 'Fc.RustEnv'],
                  'Arr3': ['FcGen.KSrcStd', 'FcGen.KSrcPS', 'FcGen.KSrcIdx', 'Fc.RustEnv'], 'Arr4': ['FcGen.KSrcStd', 'FcGen.KSrcPS', 'Fc.RustEnv'],
-                 'Arr5': ['FcGen.KSrcStd', 'FcGen.KSrcPS', 'Fc.RustEnv'], 'Arr6': ['FcGen.KSrcStd', 'FcGen.KSrcPS', 'FcGen.KSrcIdx', 'Fc.RustEnv'],
-                 'Arr7': ['FcGen.KSrcStd', 'FcGen.KSrcPS', 'Fc.RustEnv'], 'Wait': ['Fc.RustEnv']}
-GROUP_DEPS = {'Grp': ['Std', 'PS'], 'Fam': ['Std', 'PS', 'Idx'], 'GrpPoll': ['Grp'], 'RaceV': ['Fam'], 'MergeV': ['Fam'], 'JoinV': ['Fam2'], 'TryJoinV': ['Fam3'], 'ChainV': ['Fam5', 'Fam4'], 'ZipV': ['Fam4', 'Fam5'], 'Fam2': ['Std', 'PS'], 'Fam3': ['Std', 'PS'], 'Fam4': ['Std', 'PS'], 'Fam5': ['Std', 'PS'],
-              'Arr1': ['Std', 'PS'], 'Arr2': ['Std', 'PS'], 'Arr3': ['Std', 'PS', 'Idx'], 'Arr4': ['Std', 'PS'], 'Arr5': ['Std', 'PS'],
-              'Arr6': ['Std', 'PS', 'Idx'], 'Arr7': ['Std', 'PS'],
+                 'Arr5': ['Fc.RustEnv'], 'Arr6': ['FcGen.KSrcIdx', 'Fc.RustEnv'],
+                 'Arr7': ['FcGen.KSrcPS', 'Fc.RustEnv'], 'Wait': ['Fc.RustEnv']}
+GROUP_DEPS = {'Grp': ['Std', 'PS'], 'Fam': ['Std', 'PS', 'Idx'], 'GrpPoll': ['Grp'], 'RaceV': ['Fam'], 'MergeV': ['Fam'], 'JoinV': ['Fam2'], 'TryJoinV': ['Fam3'], 'ChainV': ['Fam5', 'Fam4'], 'ZipV': ['Fam4', 'Fam5'], 'Fam2': ['Std', 'PS'], 'Fam3': ['Std', 'PS'], 'Fam4': ['Std', 'PS'], 'Fam5': [],
+              'Arr1': ['Std', 'PS'], 'Arr2': ['Std', 'PS'], 'Arr3': ['Std', 'PS', 'Idx'], 'Arr4': ['Std', 'PS'], 'Arr5': [],
+              'Arr6': ['Idx'], 'Arr7': ['PS'],
               # the array proofs reuse the container-independent lemmas of the Vec proof of the SAME family (the lemma files
               # import that family's Vec statements, hence its generated file)
               'JoinA': ['Arr1', 'Fam2'], 'TryJoinA': ['Arr2', 'Fam3'], 'MergeA': ['Arr3', 'Fam'], 'ZipA': ['Arr4'],
